@@ -203,6 +203,8 @@ class PathManager:
                 ctx.path = None
             self.paths += 1
             results.append(r)
+        if not self.paths:
+            raise EngineError("every path was pruned as infeasible (feasibility queries timed out): nothing was decided")
         return results
 
 
